@@ -630,6 +630,13 @@ pub fn menu(ty: &Ty, id: usize, side: Side) -> Vec<V> {
                 }
             }
             v.push(V::U(*max));
+            if *max > 255 {
+                // values a protocol or an implementation may treat as a default or a limit:
+                // powers of two, decimal round numbers, and the size constants of the protocol
+                for x in [1u64, 2, 4, 8, 10, 16, 32, 63, 64, 100, 128, 512, 1000, 1024, 2048, 3008, 3009, 3072, 4096, 7609, 676, 77] {
+                    v.push(V::U(x));
+                }
+            }
             v
         }
         Ty::Int32 => [-7i64, -8, -1, -24, -25, -256, -257, -65536, -65537, i32::MIN as i64, 0, 23, 24, i32::MAX as i64]
@@ -641,7 +648,7 @@ pub fn menu(ty: &Ty, id: usize, side: Side) -> Vec<V> {
             vec![V::Bool(d), V::Bool(!d)]
         }
         Ty::Bytes(None) => {
-            let mut v = lens_bytes(&[32, 0, 1, 23, 24, 31, 33, 255, 256, 1024]);
+            let mut v = lens_bytes(&[32, 0, 1, 23, 24, 31, 33, 255, 256, 1024, 3008, 3009]);
             v.extend(content_bytes(32));
             v
         }
@@ -714,8 +721,11 @@ pub fn menu(ty: &Ty, id: usize, side: Side) -> Vec<V> {
                 long.push(param(-8, PUBLIC_KEY));
                 long.push(param(-7, PUBLIC_KEY));
                 vec![
-                    V::A(vec![param(-7, PUBLIC_KEY), param(-257, PUBLIC_KEY), param(-8, PUBLIC_KEY)]),
+                    // anchor default: a known entry, an unknown one, the second known one, and one more
+                    // entry behind both recognised ones (entries after the list is "full" matter too)
+                    V::A(vec![param(-7, PUBLIC_KEY), param(-257, PUBLIC_KEY), param(-8, PUBLIC_KEY), param(-7, PUBLIC_KEY)]),
                     V::A(vec![]),
+                    V::A(vec![param(-7, "Public-Key"), param(-8, "PUBLIC-KEY"), param(-8, PUBLIC_KEY)]),
                     V::A(vec![param(-8, PUBLIC_KEY)]),
                     V::A(vec![param(-8, "private-key"), param(-8, PUBLIC_KEY), param(-7, PUBLIC_KEY), param(-8, PUBLIC_KEY)]),
                     V::A(vec![param(-7, PUBLIC_KEY), param(-7, PUBLIC_KEY)]),
@@ -751,6 +761,8 @@ pub fn menu(ty: &Ty, id: usize, side: Side) -> Vec<V> {
             V::A(vec![V::t("tpm")]),
             V::A(vec![V::t("none"), V::t("packed"), V::t("none")]),
             V::A(vec![V::t("none"), V::t("packed")]),
+            V::A(vec![V::t("packed"), V::t("none"), V::t("tpm")]),
+            V::A(vec![V::t("Packed"), V::t("NONE")]),
         ],
         Ty::Enum(vals) => {
             let mut v = vec![V::U(vals[id % vals.len()])];
